@@ -1,5 +1,7 @@
-/- Helper lemmas for the model of `combinatorics.py`. -/
+/- Helper lemmas for the model of `combinatorics.py` (one file per family). -/
 import SPProofs.Comb.Sem
+import SPProofs.Comb.Base
+import SPProofs.Comb.Radix
 
 namespace SPModel.Comb
 
